@@ -24,7 +24,7 @@ class Check(CheckBase):
             '{empty, warm, warmed by a family member, warmed by the independent key, shared with a second repository, stale because '
             'another client added / deleted snapshots, one entry missing / empty / cut to 1, half, len-1 bytes, every entry cut, left '
             'by an earlier run whose download returned garbled bytes once, cold with many snapshots loaded concurrently, unrelated '
-            'garbage files} x every command in {list-snapshots, list-files, restore, delete, clean, snapshot} x acting key: the '
+            'garbage files} x every command in {list-snapshots, list-files, restore, delete, clean, snapshot, download-objects} x acting key: the '
             'command runs on a byte copy of the repository with that cache and, on another copy, with the cache disabled; '
             'exception-or-not, stdout rows, restored tree, reported files and the resulting object set must be equal '
             '(new objects compared by name and decoded content, since nonces differ). class = (state, command, acting key kind)')
